@@ -123,10 +123,18 @@ Definition ensure_struct (dots : nat) (map_mode : bool) (t : Tracer) : Outcome T
   if Nat.leb max_depth dots then Err
   else if upgradable t then Ok (TStruct (t_nullable t) map_mode 0 [])
   else match t with TStruct n m s fs => Ok (TStruct n (m || map_mode) s fs) | _ => Err end.
+(* a tuple of another length at a tuple position: the positions that the shorter tuples do not have are nullable
+   (positions n .. length fs - 1 of a longer tracer; new positions length fs .. n - 1 for a longer sample) *)
+Fixpoint arity_adjust (fs : list Tracer) (n : nat) {struct n} : list Tracer :=
+  match n, fs with
+  | O, _ => map mark_nullable fs
+  | S n', f :: r => f :: arity_adjust r n'
+  | S n', [] => TUnknown true :: arity_adjust [] n'
+  end.
 Definition ensure_tuple (dots : nat) (n : nat) (t : Tracer) : Outcome Tracer :=
   if Nat.leb max_depth dots then Err
   else if upgradable t then Ok (TTuple (t_nullable t) (repeat (TUnknown false) n))
-  else match t with TTuple _ _ => Ok t | _ => Err end.
+  else match t with TTuple nl fs => Ok (TTuple nl (arity_adjust fs n)) | _ => Err end.
 Definition ensure_union (dots : nat) (t : Tracer) : Outcome Tracer :=
   if Nat.leb max_depth dots then Err
   else if upgradable t then Ok (TUnion (t_nullable t) [])
